@@ -283,6 +283,11 @@ def ops_alphabet():
 
 
 def run_history(hist, backend='memory', path=None, reopen=False):
+    with env.in_zone(env.zone_of(hist)):
+        return _run_history(hist, backend, path, reopen)
+
+
+def _run_history(hist, backend='memory', path=None, reopen=False):
     w = World(backend, path)
     bad = []
     for i, op in enumerate(hist):
@@ -297,6 +302,11 @@ def run_history(hist, backend='memory', path=None, reopen=False):
 
 
 def expand(hist):
+    with env.in_zone(env.zone_of(hist)):
+        return _expand(hist)
+
+
+def _expand(hist):
     import copy
     ops = ops_alphabet()
     kids, viol = [], []
@@ -385,7 +395,8 @@ def run(ctx):
                          'expiry_offsets': EXPIRIES, 'tick': TICK},
             'rule': 'BFS over histories of set/add(Population)/tick/reset/delete on a fresh real Cache (memory) and the same history on the shelve-backed Cache%s (quick: every history of length <= 2; thorough: length <= 3); after every step %d queries (get, active, get_identity with entity lists, entities, stale sources, subjects; with and without expiry checking) are compared with a reference dict under the virtual clock and between the two back-ends; states merged by (reference content, clock) from depth 3 on (histories of length <= 2 are all kept distinct, so that implementation state the reference does not have - caches, memos - is exposed by their futures)' % (' reopened between steps' if ctx.thorough else '', len(observe(w0))),
         },
-        'assumptions': ['expiry exactly at now counts as not yet passed (the quantifier lists before/at/after); expiry 0 with non-empty info is not generated',
+        'assumptions': ['every history is evaluated in a process time zone (UTC, UTC+5, UTC-5) chosen as a function of the history: results must not depend on it',
+                        'expiry exactly at now counts as not yet passed (the quantifier lists before/at/after); expiry 0 with non-empty info is not generated',
                         'queries on never-stored subjects/sources: any exception or empty result counts as no data'],
     }
 
@@ -398,8 +409,9 @@ def replay(ctx, w):
     CFG['reopen'] = False
     CFG['nodedup'] = 2
     CFG['shelve_depth'] = 99
-    wd, bad = run_history(w['ops'])
-    obs = observe(wd)
-    if not bad:
-        bad = compare(obs, expected(wd))
+    with env.in_zone(env.zone_of(w['ops'][:-1])):        # the zone the exploration evaluated this transition in
+        wd, bad = _run_history(w['ops'])
+        obs = observe(wd)
+        if not bad:
+            bad = compare(obs, expected(wd))
     return {'violation': bool(bad), 'why': [(b[0], str(b[1])) for b in bad][:5]}
